@@ -342,7 +342,7 @@ impl TryFrom<&[u8]> for ExtendedAddr {
 
     fn try_from(slice: &[u8]) -> Result<Self, Self::Error> {
         let mut raw = Deserializer::from(std::io::Cursor::new(slice));
-        cbor_event::de::Deserialize::deserialize(&mut raw)
+        raw.deserialize_complete()
     }
 }
 impl cbor_event::se::Serialize for ExtendedAddr {
